@@ -405,6 +405,20 @@ def prepareCommit (o : Obj) (m : Meta) (keep : Digest → List CPath) : Obj :=
   let inv2 := inv1.updateMeta m
   rmOrphans (removed.foldl rmFile { o with inv := inv2 })
 
+/-- equality of two logical states as maps (Rust compares `HashMap`s) -/
+def stateEq (a b : List (LPath × Digest)) : Bool := a.all (b.contains ·) && b.all (a.contains ·)
+
+def versionEq (a b : Version) : Bool := a.vmeta == b.vmeta && stateEq a.state b.state
+
+/-- `Inventory::continues_history_of`: every version of `old` is present, unchanged, in `new`, and the
+    version numbers are padded the same way -/
+def continuesHistory (new old : Inv) : Bool :=
+  new.head.width == old.head.width &&
+  (List.range old.versions.length).all (fun i =>
+    match new.versions[i]?, old.versions[i]? with
+    | some a, some b => versionEq a b
+    | _, _ => false)
+
 def commitInner (r : Repo) (id : Str) (m : Meta) (keep : Digest → List CPath) (hasRoot : Bool) :
     Except Err Unit × Repo :=
   match AL.get r.staged id with
@@ -428,6 +442,8 @@ def commitInner (r : Repo) (id : Str) (m : Meta) (keep : Digest → List CPath) 
       | none => (.error .notFound, rStaged)
       | some old =>
         if old.inv.head.number + 1 ≠ o2.inv.head.number then (.error .illegalState, rStaged)
+        -- the object was replaced (purged and created again) after the version was staged
+        else if !(continuesHistory o2.inv old.inv) then (.error .illegalState, rStaged)
         else
           let r' := { rStaged with main := AL.insert r.main id (installed (some old) o2), staged := AL.erase rStaged.staged id }
           (.ok (), r')
